@@ -18,6 +18,7 @@ mod tables;
 mod tap;
 mod validate;
 mod vgen;
+mod vxlate;
 mod text;
 mod translate;
 mod tree;
